@@ -156,7 +156,7 @@ def _align_lenient(kids, want, where):
     return pairs
 
 
-def compare_action(written, node, where, order_free=False, lenient=False, fields=True):
+def compare_action(written, node, where, order_free=False, lenient=False, fields=True, status=True):
     from eliot.parse import WrittenAction, WrittenMessage
     if not isinstance(written, WrittenAction):
         raise Violation("reparented", "%s: expected action nid=%s, parser has %s" % (
@@ -175,7 +175,10 @@ def compare_action(written, node, where, order_free=False, lenient=False, fields
     if fields:
         check_fields(sc, node.start, where + " start")
     em = written.end_message
-    if node.outcome is None:
+    if not status:
+        # (whether and how the action ended is not this property's business: structure only)
+        pass
+    elif node.outcome is None:
         if em is not None:
             raise Violation("status_mismatch", "%s: has an end message but never finished" % where)
     else:
@@ -200,7 +203,7 @@ def compare_action(written, node, where, order_free=False, lenient=False, fields
         for i, (k, w) in enumerate(pairs):
             sub = "%s/%d" % (where, i + 1)
             if w.kind == "action":
-                compare_action(k, w, sub, order_free, lenient, fields)
+                compare_action(k, w, sub, order_free, lenient, fields, status)
             elif fields:
                 compare_message(k, w, sub)
         return
@@ -225,7 +228,7 @@ def compare_action(written, node, where, order_free=False, lenient=False, fields
                 if got != w.nid:
                     raise Violation("reordered", "%s: action nid=%s found where nid=%s was performed" % (
                         sub, got, w.nid))
-            compare_action(k, w, sub, order_free, lenient, fields)
+            compare_action(k, w, sub, order_free, lenient, fields, status)
         else:
             if not isinstance(k, WrittenMessage):
                 _misplaced(k, w, sub)
@@ -260,7 +263,8 @@ def _match_unordered(kids, want, where):
     return pairs
 
 
-def check_forest(messages, model, order_free=False, require_complete=True, lenient=False, fields=True):
+def check_forest(messages, model, order_free=False, require_complete=True, lenient=False, fields=True,
+                 status=True):
     """Feed decoded messages to the real Parser and compare with the model.
 
     Strict (default): the parsed forest IS the model forest, node for node, field for field (C01's
@@ -344,7 +348,7 @@ def check_forest(messages, model, order_free=False, require_complete=True, lenie
         r = t.root()
         where = "task[nid=%s]" % node.nid
         if node.kind == "action":
-            compare_action(r, node, where, order_free, lenient, fields)
+            compare_action(r, node, where, order_free, lenient, fields, status)
             complete = node.outcome is not None and _all_finished(node)
         else:
             if not isinstance(r, WrittenMessage):
@@ -378,11 +382,12 @@ def _check_one_uuid(written, uuid, where):
             _check_one_uuid(c, uuid, where)
 
 
-def account(messages, model, allow_types=(), lenient=False):
+def account(messages, model, allow_types=(), lenient=False, ends=True):
     """Exact accounting of message kinds against the model: lost or
     duplicated start/end/plain messages cannot hide behind the parser.
     ``lenient``: plain messages are counted by program id only (what eliot logs on its own account is not
     counted, neither in the log nor in the model)."""
+    ends_ok_to_check = ends
     starts = ends = plain = 0
     if lenient:
         messages = [m for m in messages if "action_status" in m or nid_of(m) is not None]
@@ -403,7 +408,7 @@ def account(messages, model, allow_types=(), lenient=False):
     if starts != want_starts:
         raise Violation(("start_count", {"dir": "more" if starts > want_starts else "fewer"}),
                         "%d start messages emitted, %d actions started" % (starts, want_starts))
-    if ends != want_ends:
+    if ends_ok_to_check and ends != want_ends:
         raise Violation(("end_count", {"dir": "more" if ends > want_ends else "fewer"}),
                         "%d end messages emitted, %d actions finished" % (ends, want_ends))
     if plain != want_plain:
@@ -433,4 +438,5 @@ def canonical_forest(messages):
         return ("M", strip(dict(n.as_dict())))
 
     tasks = list(Parser.parse_stream(messages))
-    return tuple(sorted((node(t.root()) for t in tasks), key=repr))
+    # (one-message tasks of eliot's own -- notices, reports filed outside every action -- are not the program's)
+    return tuple(sorted((node(t.root()) for t in tasks if not _is_library_extra(t.root())), key=repr))
